@@ -57,14 +57,15 @@ template<class T> static void run(Rng& g, int n) {
 		    for (int i = 0; i < 3; ++i) for (int j = 0; j < 3; ++j) { LD s = 0; for (int k = 0; k < 3; ++k) s += LL.a[k][i] * LL.a[k][j]; if (!(fabsl(s - (i == j)) <= t)) { ok = false; why = "rigid (orthonormal rows)"; } }
 		    if (!ok) fail(fn, why, "eye=(" + str((double)eye.x) + "," + str((double)eye.y) + "," + str((double)eye.z) + ") center=(" + str((double)ctr.x) + "," + str((double)ctr.y) + "," + str((double)ctr.z) + ") up=(" + str((double)up.x) + "," + str((double)up.y) + "," + str((double)up.z) + ")", why, ms(L)); } }
 		// decompose / recompose on T*R*K*S (skew K) with positive scale
-		{ glm::vec<3, T> sc((T)g.real(0.3, 3), (T)g.real(0.3, 3), (T)g.real(0.3, 3)), tr((T)g.real(-4, 4), (T)g.real(-4, 4), (T)g.real(-4, 4)); if (it % 4 == 0) sc = glm::vec<3, T>(sc.x); T kxy = (it % 2) ? (T)g.real(-0.7, 0.7) : 0, kxz = (it % 3 == 1) ? (T)g.real(-0.7, 0.7) : 0, kyz = (it % 5 < 2) ? (T)g.real(-0.7, 0.7) : 0;
+		{ glm::vec<3, T> sc((T)g.real(0.3, 3), (T)g.real(0.3, 3), (T)g.real(0.3, 3)), tr((T)g.real(-4, 4), (T)g.real(-4, 4), (T)g.real(-4, 4)); if (it % 4 == 0) sc = glm::vec<3, T>(sc.x); int sm = (it % 3 == 2) ? (it / 3) % 8 : 0; for (int k = 0; k < 3; ++k) if ((sm >> k) & 1) sc[k] = -sc[k];   /* mirrored axes: any non-zero scale is in the domain (an odd number of them makes the determinant negative) */
+		  T kxy = (it % 2) ? (T)g.real(-0.7, 0.7) : 0, kxz = (it % 3 == 1) ? (T)g.real(-0.7, 0.7) : 0, kyz = (it % 5 < 2) ? (T)g.real(-0.7, 0.7) : 0;
 		  M4 K = ident(); K.a[1][0] = kxy; K.a[2][0] = kxz; K.a[2][1] = kyz; M4 S = ident(); S.a[0][0] = sc.x; S.a[1][1] = sc.y; S.a[2][2] = sc.z; M4 R = rodr(ang, axis.x, axis.y, axis.z); M4 Tm = ident(); Tm.a[3][0] = tr.x; Tm.a[3][1] = tr.y; Tm.a[3][2] = tr.z;
 		  M4 C = mul(mul(mul(Tm, R), K), S); glm::mat<4, 4, T> Mx; for (int c = 0; c < 4; ++c) for (int r = 0; r < 4; ++r) Mx[c][r] = (T)C.a[c][r];
 		  glm::vec<3, T> dS, dT, dK; glm::qua<T> dQ; glm::vec<4, T> dP; count("decompose" + ty); bool okd = glm::decompose(Mx, dS, dQ, dT, dK, dP);
 		  if (!okd) fail("decompose" + ty, "returned-false", ms(Mx), "true", "false");
 		  else { M4 K2 = ident(); K2.a[1][0] = dK.z; K2.a[2][0] = dK.y; K2.a[2][1] = dK.x; M4 S2 = ident(); S2.a[0][0] = dS.x; S2.a[1][1] = dS.y; S2.a[2][2] = dS.z; M4 R2 = toL(glm::mat4_cast(dQ)); M4 T2 = ident(); T2.a[3][0] = dT.x; T2.a[3][1] = dT.y; T2.a[3][2] = dT.z;
 		    M4 C2 = mul(mul(mul(T2, R2), K2), S2); LD d = 0; for (int c = 0; c < 4; ++c) for (int r = 0; r < 4; ++r) d = nmax(d, fabsl(C2.a[c][r] - (LD)Mx[c][r])); LD td = 4096 * eps * (1 + nrm(C));
-		    if (!(d <= td)) fail("decompose" + ty, (kyz != 0 ? "skew-yz" : kxy != 0 || kxz != 0 ? "skew" : "trs"), "T*R*K*S scale=(" + str((double)sc.x) + "," + str((double)sc.y) + "," + str((double)sc.z) + ") skew(xy,xz,yz)=(" + str((double)kxy) + "," + str((double)kxz) + "," + str((double)kyz) + ")", "components rebuild the matrix", "max abs diff " + str((double)d) + " skew out=(" + str((double)dK.x) + "," + str((double)dK.y) + "," + str((double)dK.z) + ")"); }
+		    if (!(d <= td)) fail("decompose" + ty, std::string(sm ? "negative scale, " : "") + (kyz != 0 ? "skew-yz" : kxy != 0 || kxz != 0 ? "skew" : "trs"), "T*R*K*S scale=(" + str((double)sc.x) + "," + str((double)sc.y) + "," + str((double)sc.z) + ") skew(xy,xz,yz)=(" + str((double)kxy) + "," + str((double)kxz) + "," + str((double)kyz) + ")", "components rebuild the matrix", "max abs diff " + str((double)d) + " skew out=(" + str((double)dK.x) + "," + str((double)dK.y) + "," + str((double)dK.z) + ")"); }
 		}
 		// decompose with a perspective partition: M = P*T*R*S, bottom row (px, py, pz, 1) with any subset of the three entries zero
 		{ glm::vec<3, T> sc((T)g.real(0.5, 2), (T)g.real(0.5, 2), (T)g.real(0.5, 2)), tr((T)g.real(-2, 2), (T)g.real(-2, 2), (T)g.real(-2, 2)); int mask = it % 8; LD pp[3]; for (int k = 0; k < 3; ++k) pp[k] = (mask >> k) & 1 ? g.real(0.05, 0.3) * (g.range(0, 1) ? 1 : -1) : 0;
